@@ -10,7 +10,7 @@ PROPS = {}
 PROPS['C07'] = dict(
     bin='c07', sources=['props/c07.cc', 'sim/harness.cc'], unit_objs=UNIT, engine='rc',
     enum_parts=4, exhaustive_claim=True,
-    quick=dict(workers=4, cases=30000, budget=40, min_nontrivial=1000),
+    quick=dict(workers=4, cases=200000, budget=40, min_nontrivial=1000),
     thorough=dict(workers=12, cases=1500000, budget=900, min_nontrivial=100000),
     rule='case = (codec, byte string 0..4096 from 6 content classes, output capacity chosen below/around/above the '
          'needed size, chunk capacities, decoder capacity); non-trivial iff len>=1 and (capacity < needed, or len not '
@@ -36,7 +36,7 @@ AS_SIM = ['only numeric IPv4/IPv6 addressing; no ICMP errors, EINTR or partial t
 
 PROPS['C19'] = dict(
     bin='c19', sources=['props/c19.cc'] + SIMSRC, unit_objs=UNIT, images=IMGS, engine='rc',
-    quick=dict(workers=4, cases=40000, budget=40, min_nontrivial=1000),
+    quick=dict(workers=4, cases=250000, budget=40, min_nontrivial=1000),
     thorough=dict(workers=16, cases=3000000, budget=900, min_nontrivial=100000),
     rule='unit case = (password 0..40 bytes from three byte classes, challenge from boundary/single-bit/uniform classes): '
          'login_calculate vs independent MD5 of pad32(password) xor 8 x big-endian challenge, plus metamorphic checks '
@@ -53,7 +53,7 @@ PROPS['C19'] = dict(
 PROPS['C18'] = dict(
     bin='c18', sources=['props/c18.cc', 'sim/harness.cc', 'sim/scenario.cc', 'ref/refdns.cc', 'ref/refmisc.cc', 'ref/refproto.cc'], unit_objs=UNIT, images=['srv', 'cli0', 'cli1', 'cli2'], engine='rc',
     enum_parts=8, exhaustive_claim=True,
-    quick=dict(workers=4, cases=20000, budget=40, min_nontrivial=1000, enum_arg=1),
+    quick=dict(workers=4, cases=120000, budget=40, min_nontrivial=1000, enum_arg=1),
     thorough=dict(workers=8, cases=2000000, budget=600, min_nontrivial=50000, enum_arg=2),
     rule='case = (netmask 8..30, network base from 7 fixed bases or random, server host position from '
          '{first 20, last 4, middle, random}, per-slot liveness pattern); oracle = statement computed in host byte '
@@ -72,7 +72,7 @@ PROPS['C18'] = dict(
 PROPS['C17'] = dict(
     bin='c17', sources=['props/c17.cc', 'sim/harness.cc', 'ref/refmisc.cc'], unit_objs=UNIT, engine='rc',
     enum_parts=7, exhaustive_claim=True,
-    quick=dict(workers=4, cases=60000, budget=40, min_nontrivial=1000, enum_arg=1),
+    quick=dict(workers=4, cases=250000, budget=40, min_nontrivial=1000, enum_arg=1),
     thorough=dict(workers=8, cases=3000000, budget=600, min_nontrivial=50000, enum_arg=2),
     rule='validation case = constructed domain (labels of 1..12/63/64/60..66 chars, optional leading *, then one of: trailing '
          'dot, leading dot, double dot, foreign byte, padding to 128..130, truncation to 0..4) x wildcard flag; matching case = '
@@ -93,7 +93,7 @@ IMGS_EARLY = ['srv', 'cli0', 'cli1', 'cli2']
 PROPS['C08'] = dict(
     bin='c08', sources=['props/c08.cc', 'sim/harness.cc', 'sim/scenario.cc', 'sim/monitors.cc', 'ref/refmisc.cc', 'ref/refdns.cc', 'ref/refproto.cc'], unit_objs=UNIT, images=IMGS_EARLY, engine='rc',
     enum_parts=12, exhaustive_claim=True,
-    quick=dict(workers=4, cases=40000, budget=40, min_nontrivial=1000, enum_arg=1),
+    quick=dict(workers=4, cases=200000, budget=40, min_nontrivial=1000, enum_arg=1),
     thorough=dict(workers=4, cases=2000000, budget=600, min_nontrivial=50000, enum_arg=2),
     rule='case = (L 100..255, valid tunnel domain of a chosen length 3..min(128,L-24) in three label layouts, codec, header '
          'length 1 or 5, payload 1..2048 bytes from 6 content classes, plain or wildcard server domain); the name is built '
@@ -146,7 +146,7 @@ PROPS['C09'] = dict(
     bin='c09', sources=['props/c09.cc', 'sim/harness.cc', 'ref/refdns.cc', 'ref/refmisc.cc', 'ref/refproto.cc'],
     unit_objs=[], images=['gsrv', 'gcli'], engine='rc',
     enum_parts=14, exhaustive_claim=True,
-    quick=dict(workers=2, cases=20000, budget=40, min_nontrivial=1000, enum_arg=1),
+    quick=dict(workers=2, cases=100000, budget=40, min_nontrivial=1000, enum_arg=1),
     thorough=dict(workers=2, cases=1000000, budget=900, min_nontrivial=100000, enum_arg=2),
     rule='configuration = query type (7) x downstream codec letter (T,S,U,V,R; also combinations the document calls unsupported) '
          'x query-name length (8, 53, 253 chars) x caller buffer (4096 handshake / 65536 tunnel). Sweep: payload lengths '
@@ -218,7 +218,7 @@ ADV_RULE = ('case = real iodined (password 1..32 bytes incl. bytes >= 0x80, netm
             '(refproto) starting and sending packets in between, time steps 0.1 s .. 130 s. ')
 PROPS['C03'] = dict(
     bin='c03', sources=['props/c03.cc'] + SIMSRC2, unit_objs=UNIT, images=IMGS, engine='rc',
-    quick=dict(workers=8, cases=6000, budget=40, min_nontrivial=100),
+    quick=dict(workers=8, cases=10000, budget=40, min_nontrivial=100),
     thorough=dict(workers=16, cases=150000, budget=1200, min_nontrivial=5000),
     rule=ADV_RULE + 'Oracle: the monitor learns (slot, challenge) from every VACK on the wire; a slot is logged in exactly from the moment a '
          'login carrying MD5(pad32(password) xor challenge) (independent MD5) for its current challenge is read by the server until the slot is '
@@ -233,7 +233,7 @@ PROPS['C03'] = dict(
 PROPS['C20'] = dict(
     bin='c20', sources=['props/c20.cc'] + SIMSRC2, unit_objs=UNIT, images=IMGS, engine='rc',
     enum_parts=7, exhaustive_claim=True,
-    quick=dict(workers=6, cases=8000, budget=40, min_nontrivial=100),
+    quick=dict(workers=6, cases=40000, budget=40, min_nontrivial=100),
     thorough=dict(workers=16, cases=200000, budget=900, min_nontrivial=5000),
     rule='system case (2 in 3) = real iodined -b + 1..20 requesters (IPv4 pairs sharing an address, IPv6) + scripted local resolver + optional tunnel '
          'session; <= 80 actions: a requester asks for one of 9 names outside the tunnel domain (look-alikes of the domain included) with an id from '
@@ -269,7 +269,7 @@ PROPS['C04'] = dict(
 
 PROPS['C13'] = dict(
     bin='c13', sources=['props/c13.cc'] + SIMSRC2, unit_objs=UNIT + ['tun_bsd'], images=IMGS, engine='rc',
-    quick=dict(workers=8, cases=6000, budget=40, min_nontrivial=200),
+    quick=dict(workers=8, cases=40000, budget=40, min_nontrivial=200),
     thorough=dict(workers=16, cases=300000, budget=1200, min_nontrivial=10000),
     rule='case = REAL iodine client (-T NULL/PRIVATE/TXT/SRV/MX/CNAME/A or autodetect) against a scripted server (reference implementation of the '
          'protocol document) that answers the version step honestly and the login step with a generated reply under downstream encoding T/S/U/V/R: '
